@@ -234,6 +234,9 @@ type c17ExpSession struct {
 	Registered bool  `json:"registered"`
 	Services   int   `json:"pseudo_clients"` // >0: a services link with that many pseudo-clients
 	Pinged     bool  `json:"last_activity_was_ping"`
+	// EarlierMs: when the last activity was a PING, everything before it happened this much earlier
+	EarlierMs   int64 `json:"non_ping_activity_earlier_ms"`
+	PseudoJoins bool  `json:"pseudo_clients_join_a_channel"`
 }
 
 type c17ExpCase struct {
@@ -262,8 +265,17 @@ func c17ExpCheck(c c17ExpCase) *vh.Failure {
 		// created a little earlier than its last activity
 		applyEntry(i, ircgen.Entry{Kind: "create", Id: sid, Data: "0123456789abcdef0123456789abcdef", Nano: at - int64(time.Second)})
 		n := 1
+		// everything but the final PING happened EarlierMs before the last activity
+		early := at - s.EarlierMs*int64(time.Millisecond)
+		if !s.Pinged {
+			early = at
+		}
 		line := func(data string) {
-			applyEntry(i, ircgen.Entry{Kind: "irc", Id: sid + uint64(n), Session: sid, Data: data, Nano: at, CMID: uint64(n)})
+			ts := early
+			if strings.HasPrefix(data, "PING") {
+				ts = at
+			}
+			applyEntry(i, ircgen.Entry{Kind: "irc", Id: sid + uint64(n), Session: sid, Data: data, Nano: ts, CMID: uint64(n)})
 			n++
 		}
 		switch {
@@ -272,7 +284,11 @@ func c17ExpCheck(c c17ExpCase) *vh.Failure {
 			line("SERVER services.robustirc.net 1 :Services")
 			for p := 0; p < s.Services; p++ {
 				nick := []string{"ChanServ", "NickServ", "OperServ"}[p%3]
-				line("NICK " + nick + fmt.Sprint(sid) + "serv 1 1422134861 services localhost.net services.localhost.net 0 :svc")
+				pn := nick + fmt.Sprint(sid) + "serv"
+				line("NICK " + pn + " 1 1422134861 services localhost.net services.localhost.net 0 :svc")
+				if s.PseudoJoins {
+					line(":" + pn + " JOIN #services")
+				}
 			}
 		case s.Registered:
 			line(fmt.Sprintf("NICK n%d", sid))
@@ -334,7 +350,11 @@ func TestVerifC17Expiry(t *testing.T) {
 			s := c17ExpSession{Registered: rapid.Bool().Draw(rt, "registered"), Pinged: rapid.Bool().Draw(rt, "pinged")}
 			if rapid.IntRange(0, 3).Draw(rt, "services") == 0 {
 				s.Services = rapid.IntRange(1, 3).Draw(rt, "pseudoclients")
+				s.PseudoJoins = rapid.Bool().Draw(rt, "pseudojoins")
 				pseudo = true
+			}
+			if s.Pinged {
+				s.EarlierMs = int64(rapid.OneOf(rapid.Just(0), rapid.IntRange(1000, 60000), rapid.IntRange(1000, 4000000)).Draw(rt, "earlier_ms"))
 			}
 			if rapid.Bool().Draw(rt, "older") {
 				s.AgeMs = int64(c.ExpirationS)*1000 + d
